@@ -338,5 +338,68 @@ where
 //@end
 }
 
+
+// ===================================================================== construction and conversion: no byte appears or disappears (C13, C14)
+//@check_struct file=actix-codec/src/framed.rs name=FramedParts fields=io,codec,read_buf,write_buf,flags
+pub struct FramedParts<T, U> { pub io: T, pub codec: U, pub read_buf: BytesMut, pub write_buf: BytesMut, pub flags: Flags }
+impl<T, U> Framed<T, U> {
+    /// a fresh transport: nothing buffered, decoder neither readable nor at EOF
+    pub open spec fn fresh(&self) -> bool {
+        self.read_buf@.len() == 0 && self.write_buf@.len() == 0 && self.flags.no_flags()
+    }
+    /// the same buffered bytes and decoder flags
+    pub open spec fn same_buffers<T2, U2>(&self, o: &Framed<T2, U2>) -> bool {
+        self.read_buf@ == o.read_buf@ && self.write_buf@ == o.write_buf@ && self.flags == o.flags
+    }
+//@extract file=actix-codec/src/framed.rs item="impl<T, U> Framed<T, U> / fn new" ret=r props=C13,C14 name=framed::new sig_replace="pub fn new(io: T, codec: U)=>pub fn new_(io: T, codec: U)"
+//@spec
+    ensures r.fresh(), r.io == io, r.codec == codec,   // [C13,C14]
+//@end
+//@extract file=actix-codec/src/framed.rs item="impl<T, U> Framed<T, U> / fn is_read_buf_empty" ret=r props=C13 name=framed::is_read_buf_empty
+//@spec
+    ensures r == (self.read_buf@.len() == 0),
+//@end
+//@extract file=actix-codec/src/framed.rs item="impl<T, U> Framed<T, U> / fn is_write_buf_empty" ret=r props=C14 name=framed::is_write_buf_empty
+//@spec
+    ensures r == (self.write_buf@.len() == 0),
+//@end
+//@extract file=actix-codec/src/framed.rs item="impl<T, U> Framed<T, U> / fn is_write_buf_full" ret=r props=C14 name=framed::is_write_buf_full
+//@spec
+    ensures r == (self.write_buf@.len() >= HW),
+//@end
+//@extract file=actix-codec/src/framed.rs item="impl<T, U> Framed<T, U> / fn replace_codec" ret=r props=C13,C14 name=framed::replace_codec
+//@spec
+    ensures r.same_buffers(&self), r.io == self.io, r.codec == codec,   // [C13,C14] buffered bytes survive a codec change
+//@end
+//@extract file=actix-codec/src/framed.rs item="impl<T, U> Framed<T, U> / fn into_map_io" ret=r props=C13,C14 name=framed::into_map_io
+//@spec
+    requires call_requires(f, (self.io,)),
+    ensures r.same_buffers(&self), r.codec == self.codec, call_ensures(f, (self.io,), r.io),   // [C13,C14]
+//@end
+//@extract file=actix-codec/src/framed.rs item="impl<T, U> Framed<T, U> / fn into_map_codec" ret=r props=C13,C14 name=framed::into_map_codec
+//@spec
+    requires call_requires(f, (self.codec,)),
+    ensures r.same_buffers(&self), r.io == self.io, call_ensures(f, (self.codec,), r.codec),   // [C13,C14]
+//@end
+//@extract file=actix-codec/src/framed.rs item="impl<T, U> Framed<T, U> / fn from_parts" ret=r props=C13,C14 name=framed::from_parts
+//@spec
+    ensures r.read_buf@ == parts.read_buf@, r.write_buf@ == parts.write_buf@, r.flags == parts.flags, r.io == parts.io, r.codec == parts.codec,   // [C13,C14]
+//@end
+//@extract file=actix-codec/src/framed.rs item="impl<T, U> Framed<T, U> / fn into_parts" ret=r props=C13,C14 name=framed::into_parts
+//@spec
+    ensures r.read_buf@ == self.read_buf@, r.write_buf@ == self.write_buf@, r.flags == self.flags, r.io == self.io, r.codec == self.codec,   // [C13,C14]
+//@end
+}
+impl<T, U> FramedParts<T, U> {
+//@extract file=actix-codec/src/framed.rs item="impl<T, U> FramedParts<T, U> / fn new" ret=r props=C13,C14 name=framed::parts_new
+//@spec
+    ensures r.read_buf@.len() == 0, r.write_buf@.len() == 0, r.flags.no_flags(), r.io == io, r.codec == codec,
+//@end
+//@extract file=actix-codec/src/framed.rs item="impl<T, U> FramedParts<T, U> / fn with_read_buf" ret=r props=C13 name=framed::parts_with_read_buf
+//@spec
+    ensures r.read_buf@ == read_buf@, r.write_buf@.len() == 0, r.flags.no_flags(), r.io == io, r.codec == codec,   // [C13] prefilled bytes are decoded first
+//@end
+}
+
 } // verus!
 fn main() {}
